@@ -5,7 +5,8 @@
 (*   two definitions, of the names a and b, each object-like or function-   *)
 (*   like with the one parameter c, replacement lists of at most MaxBody    *)
 (*   tokens over {a, b, c, "(", ")"} (WithOps = TRUE adds "#" and "##");     *)
-(*   inputs: every sequence of at most MaxIn tokens over the same alphabet. *)
+(*   inputs: every sequence of at most MaxIn tokens over the same alphabet  *)
+(*   plus eleven fixed ones with nested and repeated invocations.           *)
 (*   Laws of Exp (Prosser's expand): termination, idempotence, no macro     *)
 (*   invocation left, hide sets only name defined macros, the results       *)
 (*   contain only source spellings, ...                                     *)
@@ -31,7 +32,8 @@ MacroSets == {<<>>} \cup {<<d>> : d \in DefsOf(na) \cup DefsOf(nb)}
                     \cup {<<d1, d2>> : d1 \in DefsOf(na), d2 \in DefsOf(nb)}
 \* every input of at most MaxIn tokens, plus some longer ones with (nested, repeated) invocations
 Inputs == {Mk(x) : x \in SeqsUpTo(Alpha, MaxIn)}
-          \cup {<<Ta, Tl, Tb, Tr>>, <<Ta, Tl, Ta, Tr>>, <<Tb, Tl, Tc, Tr>>, <<Ta, Tl, Tr>>, <<Ta, Tl, Tc, Tr, Tl, Tc, Tr>>,
+          \cup {<<Ta>>, <<Tb>>, <<Ta, Tb>>,
+                <<Ta, Tl, Tb, Tr>>, <<Ta, Tl, Ta, Tr>>, <<Tb, Tl, Tc, Tr>>, <<Ta, Tl, Tr>>, <<Ta, Tl, Tc, Tr, Tl, Tc, Tr>>,
                 <<Ta, Tl, Tb, Tl, Tc, Tr, Tr>>, <<Ta, Tl, Ta, Tl, Tc, Tr, Tr, Tb>>, <<Tb, Ta, Tl, Tb, Tr, Tl, Ta, Tr>>}
 
 \* ---- the line alphabet of the machine part --------------------------------
